@@ -22,7 +22,7 @@ RULE = (
     "generated Myokit models written as .mmt text: 1-3 components, 1-2 states and 0-3 constants / intermediates "
     "per component, nested child variables (depth 1-2) under states and under intermediates, equal local names "
     "in different components and under different parents (forces create_unique_names), names from sympy's "
-    "namespace (beta, gamma, E, I, S, N, zeta, ...), if / piecewise / and / or / not, the Myokit operators that "
+    "namespace (beta, gamma, E, I, S, N, zeta, pi, Lt, Mod, Abs, exp, floor, oo ...), if / piecewise / and / or / not, the Myokit operators that "
     "exist in the .ode language; optionally a [[protocol]] with a pace binding (embedded by the importer). "
     "Oracle: myokit.Model.evaluate_derivatives (Myokit's own evaluation, independent of gotranx) at the initial "
     "state and at 5 perturbed states vs the NumPy rhs of load_ode(save(myokit_to_gotran(model))), by unique "
@@ -34,7 +34,7 @@ RULE = (
 ASSUMPTIONS = ["myokit.Model.evaluate_derivatives is the reference evaluation of the Myokit model", "unique names: var.uname() after create_unique_names(), with '_' appended to names in sympy's namespace (the importer's documented rule)"]
 
 COMPS = ["membrane", "ina", "ik", "cell", "calcium"]
-NAMES = ["V", "m", "h", "x", "a", "b", "alpha", "beta", "gamma", "E", "I", "S", "N", "zeta", "g", "k", "tau", "rate", "Q", "lam", "w"]
+NAMES = ["V", "m", "h", "x", "a", "b", "alpha", "beta", "gamma", "E", "I", "S", "N", "zeta", "g", "k", "tau", "rate", "Q", "lam", "w", "pi", "Lt", "Mod", "Abs", "exp", "floor", "oo"]
 FUNCS = ["exp", "sin", "cos", "atan", "abs", "sqrt_abs", "log_abs", "floor"]
 
 
@@ -180,7 +180,7 @@ def strategy(tier):
             features.add("protocol")
         if any(tok in text for tok in ("if(", "piecewise(")):
             features.add("conditional")
-        if any(n in ("beta", "gamma", "E", "I", "S", "N", "zeta", "Q") for c in comps for n in decl[c]["states"] + decl[c]["consts"] + decl[c]["inter"]):
+        if any(n in ("beta", "gamma", "E", "I", "S", "N", "zeta", "Q", "pi", "Lt", "Mod", "Abs", "exp", "floor", "oo") for c in comps for n in decl[c]["states"] + decl[c]["consts"] + decl[c]["inter"]):
             features.add("sympy-name")
         perturb = [draw(st.lists(st.sampled_from([0.0, 0.25, -0.5, 1.0, -2.0, 3.5]), min_size=len(all_states), max_size=len(all_states))) for _ in range(5)]
         times = [draw(st.sampled_from([0.0, 1.0, 10.25, 500.0])) for _ in range(6)]
